@@ -21,6 +21,7 @@ import Proofs.Lemmas.C11Misc
 import Proofs.Lemmas.C11Groups
 import Proofs.Lemmas.C11GroupsEnum
 import Proofs.Lemmas.C11Compose
+import Proofs.Lemmas.C11TiedRec
 import Proofs.Lemmas.C11TiedCompose
 
 namespace C11.Props
@@ -112,16 +113,22 @@ theorem cdf_is_prefix_sum_tied (n1 n2 : Nat) (T : List Nat) (hT : UDist.hasTies 
         + ∑ v ∈ Finset.range (u + 1), pmfPure n1 n2 T (v : Int) :=
   C11.cdf_is_prefix_sum_tied n1 n2 T hT u hu
 
-/-- **pmf_sums_to_one** (tied), given exactness of the table at its two ends -/
-theorem pmf_sums_to_one_tied_partial (n1 n2 : Nat) (T : List Nat) (hT : UDist.hasTies T = true)
-    (hlo : A T T.length n1 (-1) = 0)
-    (hhi : A T T.length n1 ((2 * (n1 * n2) : Nat) : Int) = choose (n1 + n2) n1)
-    (hC : choose (n1 + n2) n1 ≠ 0) :
+/-- **tied_recurrence_exact.** For every tie vector with positive entries and K ≥ 2 groups, the
+    counting recurrence `A` (K = 2 base case, per-rank step, pruning by twoUmin/twoUmax, completion
+    rule) equals the number of assignments counted per tie group, for every n1 and every 2U. -/
+theorem tied_recurrence_exact (T : List Nat) (hT : ∀ t ∈ T, 0 < t) (hK : 2 ≤ T.length) (n1 : Nat)
+    (hn : n1 ≤ T.sum) (twoU : Int) :
+    A T T.length (n1 : Int) twoU = groupCount T n1 twoU :=
+  C11.tied_recurrence_exact T hT hK n1 hn twoU
+
+/-- **pmf_sums_to_one** (tied) -/
+theorem pmf_sums_to_one_tied (T : List Nat) (hpos : ∀ t ∈ T, 0 < t) (hK : 2 ≤ T.length) (n1 n2 : Nat)
+    (hT : UDist.hasTies T = true) (hN : T.sum = n1 + n2) :
     ∑ v ∈ Finset.range (2 * (n1 * n2) + 1), pmfPure n1 n2 T (v : Int) = 1 :=
-  C11.pmf_sums_to_one_tied_partial n1 n2 T hT hlo hhi hC
+  C11.pmf_sums_to_one_tied T hpos hK n1 n2 hT hN
 
 example : ∑ v ∈ Finset.range (2 * (2 * 1) + 1), pmfPure 2 1 [1, 2] (v : Int) = 1 :=
-  pmf_sums_to_one_tied_partial 2 1 [1, 2] (by decide) (by decide +kernel) (by decide +kernel) (by decide +kernel)
+  pmf_sums_to_one_tied [1, 2] (by decide) (by decide) 2 1 (by decide) (by decide)
 
 /-! ### p-values -/
 
@@ -190,12 +197,30 @@ theorem groups_count_labelings (T : List Nat) (n1 : Nat) (twoU : Int) :
       = ((Spec.UExact.nullDistOf n1 (poolOf T)).filter fun (d : Nat) => decide ((d : Int) ≤ twoU)).length :=
   C11.groups_count_labelings_nat T n1 twoU
 
-/-- the tied CDF wrapper is the distribution function of the enumeration, given that the counting
-    recurrence equals the per-group count (hypothesis `hA` = `tied_recurrence_exact`) -/
-theorem tied_cdf_is_cdf_of_recurrence (T : List Nat) (n1 n2 : Nat) (hT : UDist.hasTies T = true)
-    (hN : T.sum = n1 + n2) (hA : ∀ v : Int, A T T.length (n1 : Int) v = groupCount T n1 v) :
+/-- the tied CDF wrapper is the distribution function of the enumeration of the assignments of the
+    pooled sample with tie vector T -/
+theorem tied_cdf_is_cdf (T : List Nat) (hpos : ∀ t ∈ T, 0 < t) (hK : 2 ≤ T.length) (n1 n2 : Nat)
+    (hT : UDist.hasTies T = true) (hN : T.sum = n1 + n2) :
     IsCDFOf (cdfPure n1 n2 T) (Spec.UExact.nullDistOf n1 (poolOf T)) :=
-  C11.tied_cdf_is_cdf_of_recurrence T n1 n2 hT hN hA
+  C11.tied_cdf_is_cdf T hpos hK n1 n2 hT hN
+
+/-- **less_spec for tied samples**: the one-sided p-value is P(2U ≤ 2u) over all assignments -/
+theorem less_exact_tied (T : List Nat) (hpos : ∀ t ∈ T, 0 < t) (hK : 2 ≤ T.length) (n1 n2 : Nat)
+    (hT : UDist.hasTies T = true) (hN : T.sum = n1 + n2) (u : Nat) (tu2 : Int) :
+    exactP (cdfPure n1 n2 T) .less (u : Int) tu2
+      = Spec.UExact.pLess (Spec.UExact.nullDistOf n1 (poolOf T)) u :=
+  C11.less_exact_tied T hpos hK n1 n2 hT hN u tu2
+
+/-- **greater_spec for tied samples** (uses the half step of 079b4ab) -/
+theorem greater_exact_tied (T : List Nat) (hpos : ∀ t ∈ T, 0 < t) (hK : 2 ≤ T.length) (n1 n2 : Nat)
+    (hT : UDist.hasTies T = true) (hN : T.sum = n1 + n2) (u : Nat) (tu2 : Int) :
+    exactP (cdfPure n1 n2 T) .greater (u : Int) tu2
+      = Spec.UExact.pGreater (Spec.UExact.nullDistOf n1 (poolOf T)) u :=
+  C11.greater_exact_tied T hpos hK n1 n2 hT hN u tu2
+
+example : exactP (cdfPure 4 3 [3, 2, 2]) .greater ((7 : Nat) : Int) 0
+    = Spec.UExact.pGreater (Spec.UExact.nullDistOf 4 (poolOf [3, 2, 2])) 7 :=
+  greater_exact_tied [3, 2, 2] (by decide) (by decide) 4 3 (by decide) (by decide) 7 0
 
 /-- **two_sided_asymmetric_witness** (finding N5): for x1 = {1,2}, x2 = {2} the code's two-sided value
     is 4/3, swapped 2/3; the specification demands 1 both ways. Hence `two_sided_spec` is false for
